@@ -17,7 +17,8 @@ from vlib import fssched, harness
 ID = "C11"
 LEVEL = "exploration"
 RULE = ("a case is one schedule: 2-4 participants (processes; some with 2 threads) on one cache directory, each running a "
-        "short script of cached calls with equal / different arguments, call_and_shelve, reduce_size(items_limit 0|1), "
+        "short script of cached calls with equal / different arguments (optionally with a cache_validation_callback that rejects "
+        "entries, or from another source version of the function, so that calls themselves invalidate and clear), call_and_shelve, reduce_size(items_limit 0|1), "
         "Memory.clear or func.clear, on a cold or warm, compressed or plain store; wrappers are created sequentially, then "
         "the coordinator picks which participant performs its next file-system call (PCT-like with <= 3 pre-emptions, or "
         "random walk); distinct_nontrivial counts distinct schedules (hash of the granted (participant, op, file) sequence) "
@@ -72,11 +73,29 @@ def cases(tier, seed):
 
 
 def gen_roles(rng):
-    if rng.random() < 0.3:
+    r0 = rng.random()
+    if r0 < 0.22:
+        # invalidation duel: every participant rejects / finds outdated what the others stored - entries are cleared
+        # (validation callback) or the whole function directory is wiped (other source version) while others use them
+        x = rng.choice([1, 2, 3])
+        compress = rng.random() < 0.3
+        mode = rng.choice(["callback", "callback", "version", "both"])
+        roles = []
+        for i in range(rng.choice([2, 2, 3])):
+            roles.append(dict(kind="caller", ops=[["call", rng.choice([x, x, 1])] for _ in range(rng.randint(2, 3))], compress=compress, threads=1,
+                              validation=rng.choice(["expired", "expires_after", "expired", "valid"]) if mode in ("callback", "both") else None,
+                              version=("v2" if i % 2 else "v1") if mode in ("version", "both") else "v1"))
+        if rng.random() < 0.4:
+            roles.append(dict(kind=rng.choice(["reducer", "fclearer"]), ops=[["reduce", 0]] if rng.random() < 0.5 else [["fclear"]], compress=compress, threads=1))
+        return roles
+    if r0 < 0.47:
         # duel: several writers of ONE entry on a cold store, watched by a read-only observer
         x = rng.choice([1, 1, 3, 2])
         compress = rng.random() < 0.4
         roles = [dict(kind="caller", ops=[["call", x]] * rng.choice([1, 2]), compress=compress, threads=1) for _ in range(rng.choice([2, 2, 3]))]
+        if rng.random() < 0.5:
+            # two THREADS of one process write the same entry (same pid: the temporary name must still be unique)
+            roles[0] = dict(kind="caller", ops=[["call", x], ["call", x]], compress=compress, threads=2)
         roles.append(dict(kind="observer", ops=[["observe"]] * rng.randint(2, 5), compress=compress, threads=1))
         return roles
     n = rng.choice([2, 2, 2, 3, 3, 4])
@@ -114,8 +133,11 @@ def run_case(case, ctx):
     try:
         root = os.path.join(work, "cache")
         os.makedirs(root)
-        with open(os.path.join(work, "c11funcs.py"), "w") as f:
-            f.write(FUNCS)
+        for ver in ("v1", "v2"):
+            os.makedirs(os.path.join(work, ver))
+            with open(os.path.join(work, ver, "c11funcs.py"), "w") as f:
+                # v2 = the same function with different source text (another comment line): same results, other code
+                f.write(FUNCS if ver == "v1" else FUNCS.replace('    """cached function of C11"""', '    """cached function of C11"""\n    # edited'))
         if warm:
             out = os.path.join(work, "warm.json")
             r = harness.run_py([PART, json.dumps(dict(ops=[["call", 1], ["call", 2]], compress=roles[0]["compress"])), root, out],
@@ -127,12 +149,12 @@ def run_case(case, ctx):
         res = fssched.run_schedule(rng, argvs, root, work, strategy=strategy, est_len=rng.choice([40, 80, 150]))
         ctx.evaluated()
         ctx.count("schedules")
-        desc = dict(roles=[dict(kind=r["kind"], ops=r["ops"], threads=r["threads"]) for r in roles], warm=warm, strategy=strategy,
+        desc = dict(roles=[dict(kind=r["kind"], ops=r["ops"], threads=r["threads"], validation=r.get("validation"), version=r.get("version", "v1")) for r in roles], warm=warm, strategy=strategy,
                     compress=roles[0]["compress"], schedule_len=len(res["trace"]))
         if res["timed_out"]:
             ctx.inconclusive("schedule-watchdog", dict(desc, rcs=res["rcs"]))
             return
-        interleaved = len({t[0] for t in res["trace"]}) >= 2 and any(a[0] != b[0] for a, b in zip(res["trace"], res["trace"][1:]))
+        interleaved = len({str(t[0]) for t in res["trace"]}) >= 2 and any(a[0] != b[0] for a, b in zip(res["trace"], res["trace"][1:]))
         sched_hash = harness.h(res["trace"], 12)
         if interleaved:
             ctx.sig(sched_hash)
